@@ -331,7 +331,15 @@ int main(int argc, char **argv)
             put_ordered(f, a < 8 ? a_fuzzy_equ((a + 1) / 8.0, y) : 1.0);
             fputs(",\"not\":", f);
             put_dyadic(f, rn);
-            fputs("}\n", f);
+            /* the equilibrium operator with an explicit weight: gamma = 0 is the algebraic product, gamma = 1 the algebraic sum,
+               in between it lies between the two and grows with gamma */
+            fputs(",\"equg\":[", f);
+            put_value(f, a_fuzzy_equ_(0, x, y)); fputc(',', f); put_value(f, a_fuzzy_equ_(1, x, y));
+            fputs("],\"equg_mid\":[", f);
+            put_ordered(f, a_fuzzy_equ_(0, x, y)); fputc(',', f); put_ordered(f, a_fuzzy_equ_(0.25, x, y)); fputc(',', f);
+            put_ordered(f, a_fuzzy_equ_(0.5, x, y)); fputc(',', f); put_ordered(f, a_fuzzy_equ_(0.75, x, y)); fputc(',', f);
+            put_ordered(f, a_fuzzy_equ_(1, x, y));
+            fputs("]}\n", f);
             ++n_opr;
         }
     }
